@@ -118,6 +118,10 @@ def struct_basic(g, n_cp=None, shape=None, fields=None, rich=True):
             nm_ = "try_map" if (all_fal and g.chance(0.5)) else "map"
             # written after a possible default instruction of the same member: the dedicated one still is the one that counts
             f.attrs.append(Instr(nm_, "map", container=named_cp, member=f"m{g.mark()}", action=(g.expr(at=False) if g.chance(0.25) else None), braced=True))
+            if len(cps) > 1 and g.chance(0.4):
+                # the positional counterparts get an expression through a default instruction of the same name, written first:
+                # for the field-named counterpart the dedicated one still is the one that counts
+                f.attrs.insert(0, Instr(nm_, "map", container=None, member=None, action=g.expr(at=False), braced=True))
         roll = r.random()
         if named_cp is not None:
             # other instructions of the member could out-rank the naming one for single kinds (exact kind before fallback): only ghosts of other counterparts are added
@@ -495,9 +499,20 @@ def struct_mixed_nests(g):
             it.fields.append(Field(None, r.choice(LEAF_TYPES), [Instr("child", "child", container=None, path=top), Instr("map", "map", container=None, member=f"s{k}_{j}", action=None)]))
         ents = [dict(path=top, ty=f"E{k}", hint="{}"), dict(path=deep, ty=f"M{k}", hint="{}")]     # its members are given by name (the ghosts), so it is declared field-named
     r.shuffle(ents)
-    it.attrs.append(Instr("child_parents", "child_parents", container=None, entries=ents))
+    ded = None
+    if len(cps) == 2 and g.chance(0.5):
+        ded = cps[0]
+        keep = [t for t in it.attrs if t.f["ty"] != cps[1] or not any(k in ("owned_into", "ref_into") for k in kinds_of(t.name))]
+        if not any(t.f["ty"] == cps[1] for t in keep):
+            keep.append(Instr(r.choice(["into_existing", "owned_into_existing", "ref_into_existing", "from_ref"]), "trait", ty=cps[1], hint=None, err=None, params=[]))
+        it.attrs = keep
+        for f in it.fields:
+            for a in f.attrs:
+                if a.kind == "map":
+                    a.f["container"] = ded
+    it.attrs.append(Instr("child_parents", "child_parents", container=ded, entries=ents))
     gh = [dict(path=deep, ident=f"g{g.mark()}", action=f"k{g.mark()}()") for _ in range(r.randint(1, 2))]
-    it.attrs.append(Instr("ghosts", "ghosts", container=None, entries=gh))
+    it.attrs.append(Instr("ghosts", "ghosts", container=ded, entries=gh))
     r.shuffle(it.attrs)
     return it
 
